@@ -64,7 +64,11 @@ fn object(enc: Enc, subset: u64, rot: usize, link: Option<u32>) -> Obj {
     }
     secs.push(Sec::new(b".comment", SHT_PROGBITS, b"c\0".to_vec()));
     let n = secs.len();
-    secs.rotate_left(rot % n);
+    // orders: 9 rotations, and the same 9 rotations of the reversed list
+    if rot >= 9 {
+        secs.reverse();
+    }
+    secs.rotate_left(rot % 9 % n);
     let pos = |name: &[u8], secs: &Vec<Sec>| secs.iter().position(|x| x.name == name).map(|p| p as u32 + 1).unwrap_or(0);
     let (dynsym_i, dynstr_i, strtab_i) = (pos(b".dynsym", &secs), pos(b".dynstr", &secs), pos(b".strtab", &secs));
     let dynamic_i = pos(b".dynamic", &secs) as usize;
@@ -174,12 +178,12 @@ struct Presence {
 }
 impl Presence {
     fn dims(&self) -> [u64; 3] {
-        [64, 4, if self.all_rotations { 9 } else { 4 }]
+        [64, 4, 18]
     }
 }
 impl Space for Presence {
     fn name(&self) -> String {
-        format!("objects with every subset of {{.symtab, .dynsym, .dynamic, .hash, .gnu.hash, PT_DYNAMIC}} (PT_DYNAMIC only together with .dynamic) x 4 encodings x {} section-order rotations: find_common_data vs symbol_table / dynamic_symbol_table / dynamic, hash tables by find() on every name vs ground truth; twin with e_shoff = 0 for the PT_DYNAMIC path", if self.all_rotations { 9 } else { 4 })
+        format!("objects with every subset of {{.symtab, .dynsym, .dynamic, .hash, .gnu.hash, PT_DYNAMIC}} (PT_DYNAMIC only together with .dynamic) x 4 encodings x {} section orders (all rotations of the list and of its reverse): find_common_data vs symbol_table / dynamic_symbol_table / dynamic, hash tables by find() on every name vs ground truth; twin with e_shoff = 0 for the PT_DYNAMIC path", 18)
     }
     fn size(&self) -> u64 {
         product(&self.dims())
